@@ -46,33 +46,37 @@ def gradientViolations (g : Node) : List String :=
 
 def textTags : List String := ["text", "tspan", "textPath"]
 
-partial def bodyViolations (nd : Int) (allowText : Bool) (n : Node) : List String :=
-  match n with
-  | .comment => ["comment survives"]
-  | .pi => ["processing instruction survives"]
-  | .text _ => []
-  | .elem _ t a cs =>
-    if t == svgTag "g" then
-      let kids := (Node.elem 0 t a cs).children.filter isElem
-      (if kids.length ≥ 2 then [] else ["g with fewer than two children"]) ++
-      (match a with
-       | [("opacity", v)] =>
-         (match F64.pyFloat? v with
-          | some o => if 0 < o && o < 1 then [] else ["g opacity not strictly between 0 and 1: " ++ v]
-          | none => ["g opacity is not a number: " ++ v])
-       | _ => ["g carries attributes other than a single opacity: " ++ ", ".intercalate (a.map (·.1))]) ++
-      cs.flatMap (bodyViolations nd allowText)
-    else if t == svgTag "path" then
-      (a.filterMap (fun (k, v) =>
-        if k.startsWith "stroke" then some ("path has " ++ k)
-        else if k == "transform" || k == "clip-path" then some ("path has " ++ k)
-        else if k == "fill-rule" && v != "nonzero" then some "path has an evenodd fill rule"
-        else if foreignAttr k then some ("path has foreign/xlink attribute " ++ k)
-        else none)) ++
-      pathDataViolations nd ((a.get "d").getD "") ++
-      (if (cs.filter isLxmlNode).isEmpty then [] else ["path with child nodes"])
-    else if allowText && textTags.any (fun l => t == svgTag l) then []
-    else ["element not allowed after defs: " ++ t]
+mutual
+  def bodyViolations (nd : Int) (allowText : Bool) : Node → List String
+    | .comment => ["comment survives"]
+    | .pi => ["processing instruction survives"]
+    | .text _ => []
+    | .entity => ["entity reference survives"]
+    | .elem _ t a cs =>
+      if t == svgTag "g" then
+        (if (cs.filter isElem).length ≥ 2 then [] else ["g with fewer than two children"]) ++
+        (match a with
+         | [("opacity", v)] =>
+           (match F64.pyFloat? v with
+            | some o => if 0 < o && o < 1 then [] else ["g opacity not strictly between 0 and 1: " ++ v]
+            | none => ["g opacity is not a number: " ++ v])
+         | _ => ["g carries attributes other than a single opacity: " ++ ", ".intercalate (a.map (·.1))]) ++
+        bodyViolationsList nd allowText cs
+      else if t == svgTag "path" then
+        (a.filterMap (fun (k, v) =>
+          if k.startsWith "stroke" then some ("path has " ++ k)
+          else if k == "transform" || k == "clip-path" then some ("path has " ++ k)
+          else if k == "fill-rule" && v != "nonzero" then some "path has an evenodd fill rule"
+          else if foreignAttr k then some ("path has foreign/xlink attribute " ++ k)
+          else none)) ++
+        pathDataViolations nd ((a.get "d").getD "") ++
+        (if (cs.filter isLxmlNode).isEmpty then [] else ["path with child nodes"])
+      else if allowText && textTags.any (fun l => t == svgTag l) then []
+      else ["element not allowed after defs: " ++ t]
+  def bodyViolationsList (nd : Int) (allowText : Bool) : List Node → List String
+    | [] => []
+    | c :: cs => bodyViolations nd allowText c ++ bodyViolationsList nd allowText cs
+end
 
 def violations (nd : Int) (allowText : Bool) (root : Node) : List String :=
   if !(isSvgElem root "svg") then ["root is not svg"] else
